@@ -377,7 +377,7 @@ def _render_fn_lines(p, fid, ctx, prelude):
     lines = []
     if f["data_path"] is not None:
         lines.append("@dds.data_function(%s)" % _path_expr(ctx, f["data_path"], f.get("path_style", "lit"), prelude, f.get("path_name")))
-    ps = ", ".join(n if d is None else "%s=%s" % (n, d) for n, d in f["params"])
+    ps = ", ".join([n if d is None else "%s=%s" % (n, d) for n, d in f["params"]] + ["dv%d=%s" % (j, ctx.var_expr(vid, "bare")) for j, vid in enumerate(f.get("default_vars", []))])
     lines.append("def %s(%s):" % (f["name"], ps))
     lines.append("    # %s" % f["comment"])
     lines.append("    vlog.hit(%r)" % f["name"])
@@ -399,6 +399,9 @@ def _render_fn_lines(p, fid, ctx, prelude):
         lines.append("    r.append((max(1, 2), format(3), list(filter(None, (0, 1))), sorted([2, 1])))")
     for (vid, access) in f["reads"]:
         lines.append("    r.append(%s)" % ctx.var_expr(vid, access))
+    for j, vid in enumerate(f.get("default_vars", [])):
+        # a parameter that no caller supplies: its default is the value of a module variable
+        lines.append("    r.append(dv%d)" % j)
     if f.get("fail") and f["fail"].get("when") == "start":
         lines.append(_raise_line(f))
     for i, s in enumerate(f["stmts"]):
@@ -669,7 +672,7 @@ def _own_items(p, fid, memo, stack=(), externals=None):
     for g in reach(p, fid):
         f = p["fns"][g]
         items.append(("T", f["name"], fn_text_nomod(p, g)))
-        for vid, access in f["reads"]:
+        for vid in [x[0] for x in f["reads"]] + list(f.get("default_vars", [])):
             v = p["vars"][vid]
             items.append(("V", v["module"], v["name"], v["value"]))
         for s in f["stmts"]:
